@@ -32,6 +32,8 @@ type Env struct {
 	sumCache      sync.Map // *ssa.Function -> summaryFn (or nil marker)
 	interpCache   sync.Map // *ssa.Function -> bool
 	preemptBound  int
+	sqlTraces     int      // statement traces replayed on SQLite (sqlcheck)
+	sqlMismatch   []string // disagreements between the relational model and SQLite
 	overlay       map[string][]byte
 	overlayFiles  map[string]string // virtual -> real path
 	verbose       bool
